@@ -76,7 +76,25 @@ func gen(r *core.PRNG, tier string) any {
 		p.C = []uint64{0, 1, 2}[r.Intn(3)]
 		return p
 	}
+	// large circuits (64 or more gadget calls switch the proof polynomials to NTT multiplication)
+	if p.Type != "count" && p.Type != "sum" && r.Chance(1, 7) {
+		calls := []int{63, 64, 65, 100, 127, 128, 129, 200}[r.Intn(8)]
+		chunk := []int{1, 2, 3, 5, 8}[r.Intn(5)]
+		switch p.Type {
+		case "sumvec":
+			bits := r.Range(1, 8)
+			p.A, p.B, p.C = uint64((calls*chunk+bits-1)/bits), uint64(bits), uint64(chunk)
+		case "histogram":
+			p.A, p.B = uint64(calls*chunk-r.Intn(chunk)), uint64(chunk)
+		case "mhcv":
+			p.A, p.C = uint64(calls*chunk-r.Intn(chunk)), uint64(chunk)
+			p.B = uint64(r.Range(1, 4))
+		}
+	}
 	n := r.Range(1, 8)
+	if p.A > 64 {
+		n = r.Range(1, 3)
+	}
 	for i := 0; i < n; i++ {
 		rep := Report{Meas: r.Uint64(), Edge: []string{"", "", "zero", "max"}[r.Intn(4)], Agg: r.Intn(p.Shares), Pos: r.Intn(1 << 16)}
 		rep.Fault = faults[r.Intn(len(faults))]
@@ -101,6 +119,17 @@ func directed(tier string) []any {
 				pp := p
 				out = append(out, &pp)
 			}
+		}
+	}
+	// circuits at the boundary where proof polynomials switch from schoolbook to NTT multiplication
+	for _, t := range []Plan{{Type: "histogram", A: 126, B: 2}, {Type: "histogram", A: 128, B: 2}, {Type: "histogram", A: 130, B: 2}, {Type: "histogram", A: 400, B: 3},
+		{Type: "sumvec", A: 16, B: 8, C: 2}, {Type: "sumvec", A: 100, B: 8, C: 10}, {Type: "mhcv", A: 128, B: 2, C: 2}, {Type: "mhcv", A: 200, B: 3, C: 3}} {
+		for _, sh := range []int{2, 3} {
+			p := t
+			p.Shares, p.Seed = sh, 11
+			p.Reports = []Report{{Meas: 1, Edge: "max"}, {Meas: 2, Fault: "malicious-share", Agg: sh - 1, Pos: 13}, {Meas: 3}, {Meas: 4, Fault: "input-flip", Agg: 0, Pos: 77}}
+			pp := p
+			out = append(out, &pp)
 		}
 	}
 	// constructor corner cases
@@ -591,7 +620,7 @@ func exec(planJSON []byte, run *core.Run) {
 			})
 	case "sumvec":
 		l, b, c := uint(p.A), uint(p.B), uint(p.C)
-		if l < 1 || l > 64 || b < 1 || b > 32 || c < 1 || c > 64 {
+		if l < 1 || l > 2048 || b < 1 || b > 32 || c < 1 || c > 64 {
 			run.Bad("sumvec params")
 			return
 		}
@@ -642,7 +671,7 @@ func exec(planJSON []byte, run *core.Run) {
 			})
 	case "histogram":
 		l, c := uint(p.A), uint(p.B)
-		if l < 1 || l > 64 || c < 1 || c > 64 {
+		if l < 1 || l > 2048 || c < 1 || c > 64 {
 			run.Bad("histogram params")
 			return
 		}
@@ -673,7 +702,7 @@ func exec(planJSON []byte, run *core.Run) {
 			})
 	case "mhcv":
 		l, w, c := uint(p.A), uint(p.B), uint(p.C)
-		if l < 1 || l > 64 || w < 1 || w > l || c < 1 || c > 64 {
+		if l < 1 || l > 2048 || w < 1 || w > l || c < 1 || c > 64 {
 			run.Bad("mhcv params")
 			return
 		}
